@@ -40,6 +40,13 @@ Proof.
   unfold recs in H at 1. rewrite (lazy_plus_flush_is_eager ops Hwf) in H. exact H.
 Qed.
 
+(* the code as it is: no guard *)
+Theorem killed_trace_now cap ops sched :
+  wf_ops [] ops = true ->
+  let s := run true cap sched (init (concat (snd (ops_run [] ops)))) in
+  exists k, match_recs (firstn k (eager [] ops)) (file (finish s)) = true.
+Proof. intros Hwf s. apply (killed_trace_is_prefix_of_execution true cap ops sched Hwf). reflexivity. Qed.
+
 (* non-vacuity: two nested calls with argument and return-value payloads, a 64-byte buffer (one
    or two records per buffer, so buffers are switched and re-used), recorder steps interleaved *)
 Definition nv_ops : list op :=
@@ -49,7 +56,7 @@ Definition nv_sched : list lab :=
   repeat LP 20 ++ [LR; LR; LW] ++ repeat LP 25 ++ [LR; LW; LR; LR; LW] ++ repeat LP 40.
 Example nv_complete :
   wf_ops [] nv_ops = true /\
-  let s := run false 48 nv_sched (init (concat (snd (ops_run [] nv_ops)) ++ segv_flush (fst (ops_run [] nv_ops)))) in
-  pc s = PIdle /\ todo s = [] /\ in_window false s = false /\ length (bufs s) = 2 /\ length (file s) = 80 /\ shl s = [0]
+  let s := run true 48 nv_sched (init (concat (snd (ops_run [] nv_ops)) ++ segv_flush (fst (ops_run [] nv_ops)))) in
+  pc s = PIdle /\ todo s = [] /\ in_window true s = false /\ length (bufs s) = 2 /\ length (file s) = 80 /\ shl s = [0]
   /\ match_recs (eager [] nv_ops) (file (finish s)) = true.
 Proof. vm_compute. repeat split; reflexivity. Qed.
